@@ -369,7 +369,7 @@ func c16Generate(t *rapid.T, join func(c16Key) string, knownAlias string, etcd b
 	var g c16Gen
 	g.excluded = map[string]bool{}
 	small := rapid.SampledFrom([]string{"a", "b", "g", "t", "0", "1", "a:b", "t/0"})
-	mode := rapid.SampledFrom([]string{"free", "colon", "path", "delalias", "prefix"}).Draw(t, "mode")
+	mode := rapid.SampledFrom([]string{"free", "colon", "path", "delalias", "prefix", "case"}).Draw(t, "mode")
 	var groups, topics []string
 	a, b, c := small.Draw(t, "a"), small.Draw(t, "b"), small.Draw(t, "c")
 	switch mode {
@@ -383,6 +383,9 @@ func c16Generate(t *rapid.T, join func(c16Key) string, knownAlias string, etcd b
 		legal := rapid.SampledFrom([]string{"t", "orders", "a.b"}).Draw(t, "legal")
 		groups = []string{a + "/offsets/" + legal, a + "/offsets/" + legal + "/" + b, a}
 		topics = []string{legal, c}
+	case "case":
+		groups = []string{a, strings.ToUpper(a), a + " "}
+		topics = []string{c, strings.ToUpper(c), " " + c}
 	case "prefix":
 		groups = []string{a, a + b, a + ":"}
 		topics = []string{c, c + b, c + "/"}
